@@ -340,15 +340,20 @@ Proof.
 Qed.
 
 (* ---------------------------------------------------------------- push_tendril *)
+Lemma pushed_none f (a b : list N) : fixup_none (fixup f a b) = true -> pushed f a b = a ++ b.
+Proof.
+  unfold pushed, fixup_none. destruct (fixup f a b) as [[dl dr] ins]. intros H.
+  apply andb_true_iff in H. destruct H as [H H3]. apply andb_true_iff in H. destruct H as [H1 H2].
+  apply N.eqb_eq in H1, H2, H3. subst dl dr. destruct ins; [|rewrite llen_cons in H3; lia].
+  rewrite N.sub_0_r. cbn [N.to_nat skipn app]. unfold llen. rewrite Nat2N.id, firstn_all. reflexivity.
+Qed.
+
 Lemma push_tendril_ok s fr f t o E : HInv s (t :: fr) -> In o fr ->
-  wp (push_tendril f t o) s
-     (fun t' s' ev => HInv s' (t' :: fr) /\ frame s s' fr /\ trace_ok s ev s' /\ nxt s <= nxt s' /\
-        (view s' t' = pushed f (view s t) (view s o) \/ view s' t' = view s t ++ view s o)) E.
+  wp (push_tendril f t o) s (post1 s fr (pushed f (view s t) (view s o))) E.
 Proof.
   intros HI Ho. unfold push_tendril. destruct (MAXU32 <? tlen t + tlen o); [exact I|].
   assert (Hgen : wp (x <- bytes_of o ;; push_bytes_wv f t x) s
-     (fun t' s' ev => HInv s' (t' :: fr) /\ frame s s' fr /\ trace_ok s ev s' /\ nxt s <= nxt s' /\
-        (view s' t' = pushed f (view s t) (view s o) \/ view s' t' = view s t ++ view s o)) E).
+                    (post1 s fr (pushed f (view s t) (view s o))) E).
   { step ltac:(apply bytes_of_ok with (ts := t :: fr); [exact HI|now right]).
     intros x s1 e1 [-> [-> T1]].
     eapply wp_conseq; [apply push_bytes_wv_ok; exact HI|].
@@ -358,12 +363,22 @@ Proof.
   destruct o as [bs|j len c|j oo lo]; try exact Hgen.
   destruct ((i =? j) && (oo =? ot + lt)) eqn:Hm; [|exact Hgen].
   apply andb_true_iff in Hm. destruct Hm as [Hi Hoo]. apply N.eqb_eq in Hi, Hoo. subst j oo.
-  apply wp_ret. cbn [tlen].
-  pose proof (HInv_tail_wf _ _ _ _ HI Ho) as [bo [Hbo Hlo]].
-  split.
-  { eapply HInv_reslice; [exact HI|]. intros b Hb. rewrite Hb in Hbo. injection Hbo as <-. lia. }
-  split; [apply frame_refl|]. split; [apply trace_refl|]. split; [lia|]. right.
-  cbn [view]. rewrite Hbo. apply slice_adj.
+  step ltac:(apply bytes_of_ok with (ts := Shared i ot lt :: fr); [exact HI|now left]).
+  intros x s1 e1 [-> [-> T1]].
+  step ltac:(apply bytes_of_ok with (ts := Shared i ot lt :: fr); [exact HI|now right]).
+  intros y s2 e2 [-> [-> T2]].
+  destruct (fixup_none (fixup f (view s (Shared i ot lt)) (view s (Shared i (ot + lt) lo)))) eqn:Hf.
+  - apply wp_ret. cbn [tlen].
+    pose proof (HInv_tail_wf _ _ _ _ HI Ho) as [bo [Hbo Hlo]].
+    split.
+    { eapply HInv_reslice; [exact HI|]. intros b Hb. rewrite Hb in Hbo. injection Hbo as <-. lia. }
+    split; [apply frame_refl|].
+    split; [eapply trace_trans; [exact T1|]; rewrite app_nil_r; exact T2|]. split; [|lia].
+    rewrite (pushed_none _ _ _ Hf). cbn [view]. rewrite Hbo. apply slice_adj.
+  - eapply wp_conseq; [apply push_bytes_wv_ok; exact HI|].
+    intros t' s' ev [H1 [H2 [H3 [H4 H5]]]].
+    split; [exact H1|]. split; [exact H2|].
+    split; [eapply trace_trans; [exact T1|]; eapply trace_trans; [exact T2|exact H3]|]. split; auto.
 Qed.
 
 (* ---------------------------------------------------------------- char operations *)
